@@ -5,6 +5,14 @@ import itertools
 
 from sexp import Sym
 
+# Import the heavy modules once, at module import time (core.py has already put DASK_REPO first on sys.path):
+# otherwise the first case pays for the imports inside its per-case watchdog and can time out on a loaded machine.
+import numpy  # noqa: E402,F401
+import dask  # noqa: E402,F401
+import dask.array  # noqa: E402,F401
+import dask.array.rechunk  # noqa: E402,F401
+import dask.array.reshape  # noqa: E402,F401
+
 
 def setup_dask():
     import dask
